@@ -2125,6 +2125,18 @@ public:
         const auto& e = parse_table[state][get_parse_table_idx(false, size16_t(nterm_idx))];
         return is_shift(e.kind) ? int(e.arg) : -1;
     }
+    // ... and of the generated lexer automaton (-1: no transition / nothing recognised in this state)
+    constexpr size_t ctpg_verif_dfa_size() const { return lexer_sm.size(); }
+    constexpr int ctpg_verif_dfa_next(size_t state, size_t byte) const
+    {
+        size16_t t = lexer_sm[state].transitions[byte & 0xff];
+        return t == uninitialized16 ? -1 : int(t);
+    }
+    constexpr int ctpg_verif_dfa_recognized(size_t state) const
+    {
+        size16_t t = lexer_sm[state].conflicted_recognition[0];
+        return t == uninitialized16 ? -1 : int(t);
+    }
 #endif
 
 private:
